@@ -97,6 +97,11 @@ def oracle(u):
         bad.append(("rates", "rates %r -> %r (one of them not positive) accepted" % (ir, orr)))
     if accepted:
         a = cl.kv(r)
+        # two finite positive rates and channels given: what comes back is a working resampler (ready), never an object still waiting for
+        # its rates (F43: a quotient that underflows to 0 was taken for "rates not yet given" - repaired in /repo)
+        if ch and finite and ir > 0 and orr > 0 and cl.kv(r).get("ready") != "1":
+            bad.append(("not-ready", "rates %r -> %r (finite, positive) and %d channel(s) accepted, but no resampler was built (object not ready; the first "
+                        "soxr_process dereferences the missing engines)" % (ir, orr, ch)))
         # SOXR_* overrides outside their documented ranges must be ignored (INSTALL / soxr.h: 8..15, 8..20, 100..800, 0..64)
         for name, field, lo, hi in (("SOXR_MIN_DFT_SIZE", "min", 8, 15), ("SOXR_LARGE_DFT_SIZE", "large", 8, 20),
                                     ("SOXR_COEFS_SIZE", "kb", 100, 800), ("SOXR_NUM_THREADS", "threads", 0, 64)):
